@@ -1,0 +1,147 @@
+//go:build verif
+
+package http2
+
+import (
+	"github.com/valyala/fasthttp"
+)
+
+// Exported shims over unexported functions, for the verification harness
+// (build tag verif). They add no behaviour.
+
+// VerifNextField is nextField.
+func VerifNextField(hp *HPACK, hf *HeaderField, blockStart bool, fieldsProcessed int, b []byte) ([]byte, error) {
+	return hp.nextField(hf, blockStart, fieldsProcessed, b)
+}
+
+// VerifReadInt is readInt.
+func VerifReadInt(n int, b []byte) ([]byte, uint64, error) { return readInt(n, b) }
+
+// VerifAppendInt is appendInt.
+func VerifAppendInt(dst []byte, bits uint8, index uint64) []byte {
+	return appendInt(dst, bits, index)
+}
+
+// VerifReadString is readString.
+func VerifReadString(dst, b []byte) ([]byte, []byte, error) { return readString(dst, b) }
+
+// VerifAppendString is appendString.
+func VerifAppendString(dst, src []byte, encode bool) []byte {
+	return appendString(dst, src, encode)
+}
+
+// VerifTableEntry is one dynamic table entry.
+type VerifTableEntry struct {
+	Key, Value []byte
+	Sensible   bool
+}
+
+// VerifHPACKDump returns the dynamic table, newest entry first, and the limits.
+func VerifHPACKDump(hp *HPACK) (tbl []VerifTableEntry, maxSize, maxSizeSettings uint32, pending bool) {
+	for i := len(hp.dynamic) - 1; i >= 0; i-- {
+		hf := hp.dynamic[i]
+		tbl = append(tbl, VerifTableEntry{
+			Key:      append([]byte(nil), hf.key...),
+			Value:    append([]byte(nil), hf.value...),
+			Sensible: hf.sensible,
+		})
+	}
+
+	return tbl, hp.maxTableSize, hp.maxTableSizeSettings, hp.pendingSizeUpdate
+}
+
+// VerifSetSensible sets the never-indexed mark of a field.
+func VerifSetSensible(hf *HeaderField, v bool) { hf.sensible = v }
+
+// VerifErrIsNeedMore reports whether err is the "field continues in the next
+// frame" error of the header decoder.
+func VerifErrIsNeedMore(err error) bool { return err == ErrUnexpectedSize }
+
+// VerifParseUint is parseUint.
+func VerifParseUint(b []byte) (int, error) { return parseUint(b) }
+
+// VerifHasUpperCase is hasUpperCase.
+func VerifHasUpperCase(b []byte) bool { return hasUpperCase(b) }
+
+// VerifIsConnectionSpecific is isConnectionSpecific.
+func VerifIsConnectionSpecific(b []byte) bool { return isConnectionSpecific(b) }
+
+// VerifStatusBytes is statusBytes.
+func VerifStatusBytes(code int) []byte { return statusBytes(code) }
+
+// VerifRetryable is retryable.
+func VerifRetryable(err error) bool { return retryable(err) }
+
+// VerifNewServer builds a Server around a fasthttp server without the TLS
+// configuration ConfigureServer insists on.
+func VerifNewServer(s *fasthttp.Server, cnf ServerConfig) *Server {
+	cnf.defaults()
+
+	return &Server{s: s, cnf: cnf}
+}
+
+// VerifCloseIdle runs the idle-timeout action of the connection most recently
+// served, as the idle timer would.
+func VerifCloseIdle() bool {
+	sc := verifLastSC.Load()
+	if sc == nil {
+		return false
+	}
+
+	sc.closeIdleConn()
+
+	return true
+}
+
+// VerifErrorInfo describes an Error value.
+func VerifErrorInfo(err error) (code ErrorCode, goAway bool, ok bool) {
+	e, isErr := err.(Error)
+	if !isErr {
+		return 0, false, false
+	}
+
+	return e.code, e.frameType == FrameGoAway, true
+}
+
+// VerifFramePayload returns the raw payload a FrameHeader holds.
+func VerifFramePayload(fr *FrameHeader) []byte { return fr.payload }
+
+// VerifHeadersPriority reports the priority section of a HEADERS frame.
+func VerifHeadersPriority(h *Headers) (has bool, dep uint32, weight uint8) {
+	return h.priority, h.stream, h.weight
+}
+
+// VerifSetHeadersPriority sets the priority section of a HEADERS frame.
+func VerifSetHeadersPriority(h *Headers, has bool) { h.priority = has }
+
+// VerifPushPromise reports the fields of a PUSH_PROMISE frame.
+func VerifPushPromise(pp *PushPromise) (stream uint32, ended bool, header []byte) {
+	return pp.stream, pp.ended, pp.header
+}
+
+// VerifCtxStreamID returns the stream a client request went out on.
+func VerifCtxStreamID(ctx *Ctx) uint32 { return ctx.streamID }
+
+// VerifNewCtx builds a client request context the way RoundTrip does.
+func VerifNewCtx(req *fasthttp.Request, res *fasthttp.Response) *Ctx {
+	return acquireCtx(req, res)
+}
+
+// VerifCtxTakeBack is what RoundTrip does with a Ctx after reading its result.
+func VerifCtxTakeBack(ctx *Ctx) { ctx.takeBack() }
+
+// VerifCtxFireTimeout runs the MaxResponseTime action of a request.
+func VerifCtxFireTimeout(ctx *Ctx) { ctx.fireTimeout() }
+
+// VerifConnGauges returns client connection counters.
+func VerifConnGauges(c *Conn) (openStreams int32, nextID uint32, pending, queued int) {
+	c.sendLck.Lock()
+	pending = len(c.pending)
+	c.sendLck.Unlock()
+
+	c.reqLck.Lock()
+	queued = len(c.reqQueued)
+	c.reqLck.Unlock()
+
+	return c.openStreams, c.nextID, pending, queued
+}
